@@ -2,6 +2,7 @@
   C19 — Parsing is deterministic and independent of the feature configuration.
 -/
 import Rox.Lemmas.Size
+import Rox.Lemmas.PosIndep
 
 namespace Rox.Props.C19
 open Rox Rox.Lemmas
@@ -17,9 +18,6 @@ theorem deterministic (T : Tables) (history1 history2 : List (Bytes × Opt)) (tx
 theorem tokens_independent_of_positions (T : Tables) (txt : Bytes) (o : Opt) :
     tokenize T txt o.allowDtd = tokenize T txt ({ o with positions := !o.positions }).allowDtd := rfl
 
-/-- Erase what the `positions` feature adds to a node. -/
-def eraseNode (n : NodeData) : NodeData := { n with range := (0, 0) }
-
 /-- With and without the feature `append_node` does the same to the tree, except for the range it
 stores: same success/failure, same id, same links. -/
 theorem appendNode_positions (c c' : Ctx) (k : Kind) (r : Range) (id : Nat)
@@ -28,5 +26,15 @@ theorem appendNode_positions (c c' : Ctx) (k : Kind) (r : Range) (id : Nat)
   unfold Ctx.appendNode at h ⊢
   simp only [hp, Bool.false_eq_true, if_false] at h ⊢
   exact h
+
+/-- **The `positions` feature only adds ranges** (all inputs, all other options): parsing without
+it gives exactly the result of parsing with it, with every stored range erased — the same `Ok` /
+`Err` outcome, the same error value, and the same nodes, links, names, strings, attributes and
+namespaces (`eraseDoc` sets node ranges to `(0,0)` and attribute `range`/`qname_len`/`eq_len` to
+`(0,0)`/0/0, which is what a build without the feature stores). -/
+theorem positions_only_adds_ranges (T : Tables) (txt : Bytes) (opt : Opt) :
+    parse T txt { opt with positions := false } =
+      Res.mapOk eraseDoc (parse T txt { opt with positions := true }) :=
+  parse_positions_erase T txt opt
 
 end Rox.Props.C19
